@@ -58,6 +58,22 @@ THEOREMS = [
     "MysticVerif.C17.additive_args_spec",
     "MysticVerif.C17.proxy_spec",
     "MysticVerif.C17.with_constraint_spec",
+    # ONE combinator object called several times (Model/CombinatorsSeq): Props/C17/Seq.lean
+    "MysticVerif.C17S.seqRun_get",
+    "MysticVerif.C17S.offset_succ",
+    "MysticVerif.C17S.seq_and_success_links_oracle",
+    "MysticVerif.C17S.seq_and_fresh",
+    "MysticVerif.C17S.seq_and_get_fresh",
+    "MysticVerif.C17S.seq_and_success_fixed_all_but_one",
+    "MysticVerif.C17S.seq_and_success_fixed",
+    "MysticVerif.C17S.seq_and_calls_bounded",
+    "MysticVerif.C17S.seq_or_success_fixed_oracle",
+    "MysticVerif.C17S.seq_or_fresh",
+    "MysticVerif.C17S.seq_or_success_fixed",
+    "MysticVerif.C17S.seq_not_success_moved_oracle",
+    "MysticVerif.C17S.seq_not_fresh",
+    "MysticVerif.C17S.seq_not_success_moved",
+    "MysticVerif.C17S.seq_restart_needed_witness",
 ]
 
 
@@ -210,7 +226,8 @@ def monitor(kind, members, obs, model):
             moved = [i for i, im in enumerate(imgs) if im is None or im != y]
             if moved:
                 key = "and_/success-not-fixed/other"
-                if model and model[0] == "ok" and "success" in model[2]:
+                # the two known mechanisms (F7 / F7b) are recognised only when the model returns the same vector for that reason
+                if model and model[0] == "ok" and "success" in model[2] and same_vec(floats_of(model[1]["y"]), y):
                     t = int(model[1]["t"]); links = int(model[1]["links"])
                     if len(moved) == 1 and n > 0 and moved[0] == (t + 1) % n and links >= n - 1:
                         key = "and_/success-not-fixed/unverified-member-not-idempotent"
@@ -438,8 +455,24 @@ def run_shard(pid, seed, shard, ncases, tier, extra):
             findings.append(Finding("correspondence", "%s_/models-disagree" % kind,
                                     "Model/Combinators replied %r, Model/CombinatorsX %r" % (old, new),
                                     {"request": al, "old": old, "new": new}))
-    return {"evaluations": len(cases) + len(xcases), "nontrivial": nontrivial + xn,
-            "model_lines": len(lines) + len(xcases) + len(alines), "findings": findings,
+    # ---- call SEQUENCES on one combinator object (c17s): every call checked against its own input
+    import c17s
+    scases = []; slines = []
+    for k in range(ncases):
+        rng = case_rng(PID + "/seq", seed, shard, k)
+        cs = c17s.seq_case(rng, hist)
+        scases.append(cs)
+        slines.extend(ln for _, _, ln in cs["lines"])
+    sreplies = leandrv.run_driver(slines)
+    pos = 0; sn = 0; scalls = 0
+    for cs in scases:
+        m = len(cs["lines"])
+        if c17s.seq_check(cs, sreplies[pos:pos + m], findings, hist):
+            sn += 1
+        pos += m
+        scalls += sum(len(o.frames) for o in cs["objs"])
+    return {"evaluations": len(cases) + len(xcases) + scalls, "nontrivial": nontrivial + xn + sn,
+            "model_lines": len(lines) + len(xcases) + len(alines) + len(slines), "findings": findings,
             "samples": samples, "hist": hist}
 
 
@@ -479,12 +512,22 @@ def main(tier, seed):
             "(ptype / with_penalty / as_penalty leaves, k, h, iter(n), nesting depth <= 2) evaluated at 4 points vs PenaltyTree.evalT, "
             "bit-exact in the dyadic regime, rel 1e-9 otherwise (counted separately). cpl: the six couplers and with_constraint with "
             "decorator-time and call-time arguments (args / kwds) vs Model/Couplers, bit-exact. agree: every old-stream request is also "
-            "run through the extended model; the two replies must be identical")
+            "run through the extended model; the two replies must be identical. seq: ONE and_/or_/not_ object called 2-7 times "
+            "(members: interacting difference-constraint systems x_i >= x_j + a / ties / bounds - pure or rewriting their argument in place -, "
+            "the general DSL, stateful python members whose state lives across the calls, one closure at two positions, members that are "
+            "combinator objects themselves; inputs: fresh lists, numpy arrays, one list refilled in place, repeated inputs, an earlier result fed "
+            "back; maxiter given or default); every call of every object (top and member objects) is compared with Model/CombinatorsSeq "
+            "(global member-call counter threaded through the calls; local call j must go to member j % n with the vector the model hands it; "
+            "for pure members the model evaluates the members itself = the answer of a fresh object) and the property's clause is evaluated on "
+            "the real result of every call (non-trivial = a later call of an object went past its first pass); cpl: every coupled function is "
+            "built once and called on a sequence of 1-4 (x, b) inputs, the model line is one random position; pen: every object re-evaluated twice")
     tb = ["Lean 4.33 kernel + Mathlib-free core lemmas; axioms per theorem listed under coverage.theorems",
           "hand-written models Model/Combinators.lean, Model/CombinatorsX.lean tied to constraints.and_/or_/not_ by this bit-exact differential run only",
           "harness/c17x.py classify()/make_exc(): the reading of the except clauses (which exception objects are swallowed) - a change of the clauses in the code shows up as a divergence",
           "Model/PenaltyTree.lean (built and proved about by C15; imported unchanged) tied to coupler.and_/or_/not_ objects by C17's own pen stream",
           "DSL twins harness/dsl.py and Model/Dsl.lean (compared through the same run)",
+          "Model/CombinatorsSeq.lean (one object, many calls: nothing but the members' own state survives a call) tied to the closures returned by constraints.and_/or_/not_ by the seq stream",
+          "harness/c17s.py ref_member(): a member that is a combinator object is judged by a freshly built object of the same description (undetermined, and skipped, when a random draw is involved)",
           "coupler.py inner/outer/additive (+ _proxy, with_constraint): Model/Couplers.lean compared bit-exactly; value-semantics / reuse checked by the monitor"]
     assumptions = ["members are deterministic python callables returning lists (numpy arrays make `!=` ambiguous in not_)",
                    "members return python lists of floats or raise; None / tuple / ndarray returns and NaN entries (python compares list items by identity first) are outside the correspondence",
